@@ -215,8 +215,23 @@ func (dtlsr *DTLSR) NotifyNewBundle(bp BundleDescriptor) {
 	}
 }
 
-func (_ *DTLSR) ReportFailure(_ BundleDescriptor, _ cla.ConvergenceSender) {
-	// if the transmission failed, that is sad, but there is really nothing to do...
+// ReportFailure removes the failed peer from a broadcast bundle's sent list, so it will be offered again.
+func (dtlsr *DTLSR) ReportFailure(bp BundleDescriptor, sender cla.ConvergenceSender) {
+	bundleItem, err := dtlsr.c.store.QueryId(bp.Id)
+	if err != nil {
+		return
+	}
+
+	sentEids, _ := bundleItem.Properties["routing/dtlsr/sent"].([]bpv7.EndpointID)
+	for i := 0; i < len(sentEids); i++ {
+		if sentEids[i] == sender.GetPeerEndpointID() {
+			bundleItem.Properties["routing/dtlsr/sent"] = append(sentEids[:i], sentEids[i+1:]...)
+			if err := dtlsr.c.store.Update(bundleItem); err != nil {
+				log.WithError(err).Warn("Updating BundleItem failed")
+			}
+			break
+		}
+	}
 }
 
 func (dtlsr *DTLSR) SenderForBundle(bp BundleDescriptor) (sender []cla.ConvergenceSender, delete bool) {
